@@ -254,6 +254,117 @@ fn c13_poller_iteration() {
     kani::cover!(!clock_fails && has_reply && !phc_configured, "C13.cover.plain_report");
 }
 
+// ---- two consecutive iterations: the second poll's message depends on the second poll only ----------
+// (the one-iteration contract above covers every poll only if the loop carries no state of its own from
+// one poll to the next; this harness checks that for the PHC path, where a cache would be tempting)
+static mut RECV_CALLS2: u32 = 0;
+static mut PHC2_OK: [bool; 2] = [true, true];
+static mut PHC2_VALUE: [i64; 2] = [0, 0];
+static mut PHC2_READS: u32 = 0;
+static mut SENT2_KIND: [u8; 2] = [0, 0];
+static mut SENT2_PHC: [i64; 2] = [0, 0];
+static mut SENT2_N: u32 = 0;
+
+fn stub_recv_timeout_two<T>(_this: &mpsc::Receiver<T>, _d: Duration) -> Result<T, mpsc::RecvTimeoutError> {
+    unsafe {
+        RECV_CALLS2 += 1;
+        if RECV_CALLS2 == 1 {
+            return Err(mpsc::RecvTimeoutError::Timeout);
+        }
+    }
+    let m = Message::ThreadAbort;
+    let t: T = unsafe { std::mem::transmute_copy(&m) };
+    std::mem::forget(m);
+    Ok(t)
+}
+
+fn stub_phc_read_two(_p: &std::path::Path) -> Result<i64, std::io::Error> {
+    unsafe {
+        let i = if PHC2_READS == 0 { 0 } else { 1 };
+        PHC2_READS += 1;
+        if PHC2_OK[i] { Ok(PHC2_VALUE[i]) } else { Err(std::io::Error::from_raw_os_error(5)) }
+    }
+}
+
+fn stub_send_two<K: Hash + Eq, M>(_this: &DispatchBox<K, M>, channel_id: &K, message: M) -> Result<(), mpsc::SendError<M>> {
+    let id: &ChannelId = unsafe { &*(channel_id as *const K as *const ChannelId) };
+    let msg: &Message = unsafe { &*(&message as *const M as *const Message) };
+    unsafe {
+        if *id == ChannelId::ShmWriter && SENT2_N < 2 {
+            let i = SENT2_N as usize;
+            match msg {
+                Message::ClockErrorBoundData((_t, phc, _as_of)) => { SENT2_KIND[i] = 1; SENT2_PHC[i] = *phc; }
+                Message::ChronyNotRespondingGracePeriod => SENT2_KIND[i] = 2,
+                Message::ChronyNotResponding => SENT2_KIND[i] = 3,
+                Message::PhcErrorBoundRetrievalFailedGracePeriod => SENT2_KIND[i] = 4,
+                Message::PhcErrorBoundRetrievalFailed => SENT2_KIND[i] = 5,
+                _ => SENT2_KIND[i] = 9,
+            }
+            SENT2_N += 1;
+        }
+    }
+    std::mem::forget(message);
+    Ok(())
+}
+
+struct TwoReplies {
+    replies: [Option<Tracking>; 2],
+    grace: [bool; 2],
+    queries: usize,
+}
+
+impl ChronyOperations for TwoReplies {
+    fn get_tracking(&mut self) -> Option<Tracking> {
+        let i = if self.queries == 0 { 0 } else { 1 };
+        self.queries += 1;
+        self.replies[i].take()
+    }
+    fn is_within_grace_period(&self) -> bool {
+        self.grace[if self.queries <= 1 { 0 } else { 1 }]
+    }
+}
+
+#[kani::proof]
+#[kani::unwind(4)]
+#[kani::stub(clock_bound_shm::common::clock_gettime_safe, ghost_clock_gettime)]
+#[kani::stub(crate::channels::DispatchBox::send, stub_send_two)]
+#[kani::stub(std::sync::mpsc::Receiver::recv_timeout, stub_recv_timeout_two)]
+#[kani::stub(get_phc_error_bound_from_path, stub_phc_read_two)]
+#[kani::stub(std::time::Instant::now, ghost_instant_now)]
+fn c13_second_poll_does_not_depend_on_the_first() {
+    // both polls are answered, by a report whose reference is the configured PHC (same reference time:
+    // chronyd has not updated the clock in between); the PHC file reads are independent of each other
+    let refid: u32 = kani::any();
+    let mut t1 = any_tracking();
+    let mut t2 = any_tracking();
+    t1.ref_id = refid;
+    t2.ref_id = refid;
+    let grace: [bool; 2] = [kani::any(), kani::any()];
+    let ok: [bool; 2] = [kani::any(), kani::any()];
+    let val: [i64; 2] = [kani::any(), kani::any()];
+    unsafe {
+        PHC2_OK = ok;
+        PHC2_VALUE = val;
+        CLOCK_FAILS = false;
+    }
+    let poller = TwoReplies { replies: [Some(t1), Some(t2)], grace, queries: 0 };
+    let phc_info = Some(PhcInfo { refid, sysfs_error_bound_path: std::path::PathBuf::new() });
+    run_clock_error_bound_poller(empty_context(), poller, phc_info, Duration::from_millis(1000));
+    unsafe {
+        kani::assert(SENT2_N == 2, "C13.two_polls.one_message_per_poll");
+        kani::assert(PHC2_READS == 2, "C13.two_polls.phc_error_bound_read_again_on_every_poll");
+        for i in 0..2usize {
+            if ok[i] {
+                kani::assert(SENT2_KIND[i] == 1 && SENT2_PHC[i] == val[i], "C13.two_polls.each_report_carries_the_phc_bound_read_in_that_poll");
+            } else {
+                kani::assert(SENT2_KIND[i] == if grace[i] { 4 } else { 5 }, "C13.two_polls.a_failed_read_is_never_papered_over_by_an_earlier_one");
+            }
+        }
+    }
+    kani::cover!(ok[0] && !ok[1], "C13.cover.second_read_fails");
+    kani::cover!(ok[0] && ok[1] && val[0] != val[1], "C13.cover.value_changes");
+}
+
 // =============================================================================================
 // ClockErrorBoundPoller: grace period law, start-up, stamping -- with a ghost monotonic clock
 // =============================================================================================
